@@ -9,6 +9,8 @@ package vctx
 
 import (
 	"context"
+	"reflect"
+	"strings"
 	"time"
 
 	"github.com/avos-io/goat/vrt/vsched"
@@ -77,7 +79,71 @@ func (c *Ctx) Err() error {
 
 func wrap(inner context.Context) Context { return &Ctx{inner: inner} }
 
+// foreignRoot: parent is (or, under std value contexts, rests on) a Context implementation that
+// is neither ours nor one of package context's: std would then start an unmanaged goroutine to
+// carry its cancellation to a child. We start a managed thread instead, so that "who notices the
+// parent's end first" is a choice of the explorer like any other.
+func foreignRoot(parent Context) bool {
+	c := parent
+	for i := 0; i < 64 && c != nil; i++ {
+		if _, ok := c.(*Ctx); ok {
+			return false
+		}
+		t := reflect.TypeOf(c)
+		name := t.String()
+		switch name {
+		case "*context.valueCtx", "*context.withoutCancelCtx":
+			f := reflect.ValueOf(c).Elem().Field(0)
+			next, ok := f.Interface().(Context)
+			if !ok {
+				return false
+			}
+			if name == "*context.withoutCancelCtx" {
+				return false // never cancelled at all
+			}
+			c = next
+			continue
+		}
+		return !strings.HasPrefix(name, "*context.") && !strings.HasPrefix(name, "context.")
+	}
+	return false
+}
+
+// detach: a std context carrying parent's values but not its cancellation, plus a managed thread
+// that forwards parent's end to cancel.
+func propagate(parent Context, inner Context, cancel func()) {
+	if !vsched.Active() {
+		context.AfterFunc(parent, cancel)
+		return
+	}
+	vsched.Go("context.propagate", func() {
+		if vsched.Select("context.propagate", false, vsched.RecvCase(parent.Done()), vsched.RecvCase(inner.Done())) == 0 {
+			vsched.NoteCancel()
+			cancel()
+		}
+	})
+}
+
 func WithCancel(parent Context) (Context, CancelFunc) {
+	if foreignRoot(parent) && parent.Done() != nil {
+		base := context.WithoutCancel(parent)
+		var inner Context
+		var cancel context.CancelFunc
+		if d, ok := parent.Deadline(); ok {
+			inner, cancel = context.WithDeadline(base, d)
+			vsched.AddInstant(d)
+		} else {
+			inner, cancel = context.WithCancel(base)
+		}
+		propagate(parent, inner, cancel)
+		return wrap(inner), func() {
+			if inner.Err() == nil {
+				vsched.YieldSkip("cancel", 1)
+			}
+			vsched.NoteCancel()
+			cancel()
+		}
+	}
 	inner, cancel := context.WithCancel(parent)
 	return wrap(inner), func() {
 		if inner.Err() == nil {
@@ -100,6 +166,24 @@ func WithCancelCause(parent Context) (Context, CancelCauseFunc) {
 }
 
 func WithDeadline(parent Context, d time.Time) (Context, CancelFunc) {
+	if foreignRoot(parent) && parent.Done() != nil {
+		base := context.WithoutCancel(parent)
+		if pd, ok := parent.Deadline(); ok && pd.Before(d) {
+			d = pd
+		}
+		inner, cancel := context.WithDeadline(base, d)
+		if inner.Err() == nil {
+			vsched.AddInstant(d)
+		}
+		propagate(parent, inner, cancel)
+		return wrap(inner), func() {
+			if inner.Err() == nil {
+				vsched.YieldSkip("cancel", 1)
+			}
+			vsched.NoteCancel()
+			cancel()
+		}
+	}
 	inner, cancel := context.WithDeadline(parent, d)
 	if inner.Err() == nil {
 		vsched.AddInstant(d)
